@@ -272,7 +272,8 @@ pub fn run<C: RandomizedCiphersuite, L: Lab<C>>(lab: &mut L, p: &Params) {
             // for the blinders drawn afterwards (how many draws are made is not prescribed)
             let mut v2 = fc::batch::Verifier::<C>::new();
             for j in 0..k {
-                let sk = lab.nz_scalar(&format!("sk'{j}"));
+                // the first and the last item share one key (blinders must be independent per ITEM)
+                let sk = lab.nz_scalar(&format!("sk'{}", if j == k - 1 { 0 } else { j }));
                 let key = fc::SigningKey::<C>::from_scalar(sk).unwrap();
                 let vk = fc::VerifyingKey::<C>::from(&key);
                 let msg = lab.message(&format!("m'{j}"));
